@@ -45,17 +45,24 @@ class Gen:
     def __init__(self, job, rnd):
         self.job, self.rnd = job, rnd
         self.schema = job["schema"]
-        self.lits = list(dict.fromkeys(job.get("literals", []) + ["", "a", "b"]))
+        self.lits = list(dict.fromkeys(job.get("literals", []) + ["", "a", "b", "0", "1", "2", "3", "5", "-1",
+                                                                   "PASS", "FAIL", "ERROR", "UNKNOWN"]))
         self.param_keys = job.get("param_keys", [])
         self.objects = {}
         self.pools = {}
         self.pool_size = rnd.choice([1, 2, 2, 3])
         self.p_none = rnd.choice([0.1, 0.25, 0.5])
         self.p_key = rnd.choice([0.3, 0.6, 0.9])
+        self.seen_strings = []
 
     def string(self):
         r = self.rnd
         x = r.random()
+        if self.seen_strings and x < 0.25:
+            # reuse / embed strings already present in the graph (ids inside names etc.)
+            base = r.choice(self.seen_strings)
+            s = base if r.random() < 0.4 else r.choice(self.lits) + "." + base + r.choice(["", ".x"])
+            return s
         if x < 0.7:
             return r.choice(self.lits)
         if x < 0.9:
@@ -85,7 +92,10 @@ class Gen:
         if kind == "bool":
             return {"t": "bool", "v": r.random() < 0.5}
         if kind == "str":
-            return {"t": "str", "v": self.string()}
+            v = self.string()
+            if v and len(self.seen_strings) < 20:
+                self.seen_strings.append(v)
+            return {"t": "str", "v": v}
         if kind == "float":
             return {"t": "float", "v": r.choice([0.0, 0.5, 1.0, 2.0, 10.0])}
         if isinstance(kind, list):
@@ -93,7 +103,7 @@ class Gen:
             if tag == "ref":
                 return self.ref(kind[1])
             if tag == "seq":
-                n = r.choice([0, 0, 1, 1, 2, 3])
+                n = r.choice([0, 0, 1, 1, 2, 2, 3, 4])
                 items = []
                 for _ in range(n):
                     v = self.value(kind[1], depth + 1)
@@ -134,6 +144,9 @@ class Gen:
             todo = [oid for oid, o in self.objects.items() if o["fields"] is None]
             if not todo:
                 break
+            nonparams = [oid for oid in todo if self.objects[oid]["cls"] != "Params"]
+            if nonparams:
+                todo = nonparams
             for oid in todo:
                 o = self.objects[oid]
                 cls = o["cls"]
@@ -141,7 +154,10 @@ class Gen:
                     data = {}
                     for k in self.param_keys:
                         if self.rnd.random() < self.p_key:
-                            data[k] = self.string()
+                            if k in self.job.get("numeric_keys", []) and self.rnd.random() < 0.85:
+                                data[k] = self.rnd.choice(["0", "1", "2", "3", "4", "5", "10", "-1"])
+                            else:
+                                data[k] = self.string()
                     o["fields"] = {"data": data}
                     continue
                 o["fields"] = {}
@@ -151,10 +167,39 @@ class Gen:
                 for f, k in all_fields(self.schema, cls).items():
                     if k == "py":
                         continue
-                    if f in nonnull and isinstance(k, list) and k[0] == "ref":
+                    pools = {}
+                    for c2 in [cls] + [b for b in self.schema if cls in subclasses(self.schema, b)]:
+                        pools.update(self.schema.get(c2, {}).get("pools", {}))
+                    if f in pools and self.rnd.random() < 0.85:
+                        o["fields"][f] = {"t": "str", "v": self.rnd.choice(pools[f])}
+                    elif f in nonnull and isinstance(k, list) and k[0] == "ref":
                         o["fields"][f] = self.ref(k[1], nullable=False)
                     else:
                         o["fields"][f] = self.value(k)
+
+    def apply_param_hints(self, params):
+        """Make the presence / emptiness preconditions on self.params likely to hold (rejection sampling otherwise
+        discards almost every generated input)."""
+        import re
+        me = params.get("self")
+        if not me or me.get("t") != "ref":
+            return
+        pc = self.objects[me["id"]]["fields"].get("_params_cache")
+        if not pc or pc.get("t") != "ref":
+            return
+        data = self.objects[pc["id"]]["fields"]["data"]
+        for r in self.job["contract"]["requires"]:
+            for key, neg in re.findall(r"'(\w+)' (not )?in self\.params", r):
+                if neg:
+                    data.pop(key, None)
+                else:
+                    if key not in data:
+                        data[key] = self.string()
+                    m = re.search(r"len\(self\.params\['%s'\]\) (==|>) 0" % key, r)
+                    if m and m.group(1) == "==":
+                        data[key] = ""
+                    elif m and not data[key]:
+                        data[key] = self.rnd.choice([x for x in self.lits if x] or ["x"])
 
     def inputs(self):
         params = {}
@@ -164,6 +209,8 @@ class Gen:
                 nullable, kind = kind.get("nullable", False), kind["kind"]
             if isinstance(kind, list) and kind[0] == "ref":
                 params[name] = self.ref(kind[1], nullable=nullable)
+            elif kind == "const":
+                params[name] = self.job["contract"]["params"][name]["value"]
             elif kind == "none":
                 params[name] = {"t": "none"}
             else:
@@ -172,6 +219,7 @@ class Gen:
         for g, kind in self.job.get("ghost", {}).items():
             ghost[g] = self.value(kind)
         self.fill()
+        self.apply_param_hints(params)
         stubs = {}
         for key, (owner, kind, how) in self.job.get("stubs", {}).items():
             table = {}
